@@ -9,8 +9,12 @@ Driver for C02: replays a harness schedule on `Uniflow.Flow` (nodes = `Uniflow.N
   rel <n> o <val> | i | e <val> | m <val|->* | d    the action running in node n returns             → obs
   ans <k> N | same | <val>                      sink k answers its oldest request                    → obs
   end                                           → Q<all tracers empty & threads idle> P<panic>
+                                                  F<reference answers of all requests, "," separated> (F- while one is undetermined)
+                                                  M<1 iff the model's responses equal the reference answers (when determined)>
 
-  val ::= n | a<k> | e<k>          obs ::= sorted E<n>:<val>+<val>… K<k>:<val> then R<ans> in order, or "-"
+  val ::= n | a<k> | e<k>          obs ::= sorted E<n>:<val>+<val>… K<k>:<val> then R<ans> in order, or "-",
+                                          then S<1 iff every response received so far equals the reference
+                                          answer (join over the derivation tree) of its request>
 -/
 import Uniflow.Driver.Core
 import Uniflow.Model.Flow
@@ -48,9 +52,10 @@ def obs (g : G) : String :=
   let ks := g.arrived.map (fun e => s!"K{e.1}:" ++ showVal e.2)
   let sorted := ((es ++ ks).toArray.qsort (· < ·)).toList
   let rs := g.srcOut.map (fun a => "R" ++ showAns a)
+  let safe := if respOK showAns g then "S1" else "S0"
   match sorted ++ rs with
-  | [] => "-"
-  | xs => joinSp xs
+  | [] => "- " ++ safe
+  | xs => joinSp xs ++ " " ++ safe
 
 def step (g : G) : List String → G × String
   | ["node", "o"] => ({ g with nodes := g.nodes ++ [Node.mk .oneToOne] }, "ok")
@@ -111,7 +116,12 @@ def step (g : G) : List String → G × String
       | none => (g, "bad-op")
     | _, _ => (g, "bad-op")
   | ["end"] =>
-    (g, s!"Q{if quiescentEmpty g then 1 else 0} P{if anyPanic g then 1 else 0}")
+    let (f, m) := match refAnswers g with
+      | some as =>
+        ("F" ++ ",".intercalate (as.map showAns),
+         if as.map showAns == g.resp.map showAns then "M1" else "M0")
+      | none => ("F-", "M1")
+    (g, s!"Q{if quiescentEmpty g then 1 else 0} P{if anyPanic g then 1 else 0} {f} {m}")
   | _ => (g, "bad-op")
 
 def handler : Handler := { σ := G, init := {}, step := step }
